@@ -23,10 +23,11 @@ import (
 //
 // alphabet  thresholds {1,8,64,1024}; values: every string over {0,x} up to length 10, plus runs,
 //           alternations and incompressible patterns at lengths {T-1,T,T+1,64,76,1024,4096};
-//           every supported write command with the value at every value position; the chain applied
+//           k incompressible bytes + a run of m equal bytes for every k <= 8/24, m <= 64/160 (sweeps the saving
+//           through the framing overhead); every supported write command with the value at every value position; the chain applied
 //           k in {1,2,3} times to the same request (what a redirection does)
 // oracle    value read back = value written (values not starting with the header); stored bytes are
-//           the original or header + a stream that the snappy library itself decodes to the original
+//           read back via GET, HGET, HGETALL, GETSET; the original or header + a stream that the snappy library itself decodes to the original
 //           and is strictly shorter; banned commands are stopped with an error
 // ---------------------------------------------------------------------------
 
@@ -124,7 +125,7 @@ func c13filterCase(cs c13fcase) (sig, detail string) {
 			return fmt.Sprintf("%s / %s / filter applied %s", s, strings.ToLower(w.name), timesClass(cs.Times)), fmt.Sprintf("threshold %d value %q (%d bytes) stored as %d bytes", cs.T, abbreviate(origs[p]), len(origs[p]), len(stored))
 		}
 		// read back through a read request passing the same chain once
-		for _, rd := range []string{"get", "hget", "hgetall", "mgetchild"} {
+		for _, rd := range []string{"get", "hget", "hgetall", "mgetchild", "getset"} {
 			var rreq *simpleRequest
 			var reply *RespValue
 			st := append([]byte{}, stored...)
@@ -134,6 +135,9 @@ func c13filterCase(cs c13fcase) (sig, detail string) {
 				reply = newBulkBytes(st)
 			case "hget":
 				rreq = newSimpleRequest(newStringArray("hget", "k", "f"))
+				reply = newBulkBytes(st)
+			case "getset": // answers with the value stored before
+				rreq = newSimpleRequest(newStringArray("getset", "k", "n"))
 				reply = newBulkBytes(st)
 			case "hgetall":
 				rreq = newSimpleRequest(newStringArray("hgetall", "k"))
@@ -191,6 +195,17 @@ func c13filter(env sched.Env) *sched.Report {
 			}
 			for _, kind := range []string{"run", "alt", "rnd", "text"} {
 				pv = append(pv, c13pattern(kind, l))
+			}
+		}
+		// k incompressible bytes followed by a run of m equal bytes: sweeps the number of bytes compression
+		// saves through the whole neighbourhood of the framing overhead (header, stream identifier, chunk header)
+		maxK, maxM := 8, 64
+		if env.Tier == "thorough" {
+			maxK, maxM = 24, 160
+		}
+		for k := 0; k <= maxK; k++ {
+			for m := 0; m <= maxM; m++ {
+				pv = append(pv, append(c13pattern("rnd", k), c13pattern("run", m)...))
 			}
 		}
 		for ci := range c13writes {
@@ -264,7 +279,7 @@ type c13hcase struct {
 var c13hvals = [][]byte{[]byte("tiny"), c13pattern("run", 3000), c13pattern("rnd", 300), c13pattern("text", 90)}
 
 var c13opNames = []string{"enable(8)", "enable(64)", "disable", "SET short", "SET run3000", "SET rnd300", "HSET text90", "MSET run3000+short", "SETEX run3000",
-	"GET", "HGET", "MGET", "move-group", "start-migration"}
+	"GET", "HGET", "MGET", "move-group", "start-migration", "GETSET short"}
 
 func c13history(cs c13hcase) (sig, detail string) {
 	body := func() {
@@ -327,6 +342,17 @@ func c13history(cs c13hcase) (sig, detail string) {
 					cl.SetMigrating(0, cl.Masters()[1])
 				}
 				continue
+			case 14:
+				args = []string{"GETSET", k1, string(c13hvals[0])}
+			}
+			var prev *resp.Value
+			if op == 14 {
+				w := resp.NullBulk()
+				if v, ok := model[k1]; ok {
+					w = resp.Bulk(v)
+				}
+				prev = &w
+				model[k1] = c13hvals[0]
 			}
 			got, err := c.Do(args...)
 			if err != nil {
@@ -351,6 +377,8 @@ func c13history(cs c13hcase) (sig, detail string) {
 			case 11:
 				w := resp.Array(bulk(k1), bulk(k2))
 				want = &w
+			case 14:
+				want = prev
 			}
 			if want != nil && !resp.Equal(got, *want) {
 				hist := make([]string, i+1)
@@ -359,7 +387,7 @@ func c13history(cs c13hcase) (sig, detail string) {
 				}
 				redirected := "no redirection before"
 				for j := 0; j < i; j++ {
-					if cs.Ops[j] >= 12 {
+					if cs.Ops[j] == 12 || cs.Ops[j] == 13 {
 						redirected = "after a redirected write"
 					}
 				}
@@ -413,7 +441,7 @@ func c13histories(env sched.Env) *sched.Report {
 	n := 0
 	var rec func(ops []int)
 	rec = func(ops []int) {
-		if len(ops) > 0 && ops[len(ops)-1] >= 9 && ops[len(ops)-1] <= 11 { // histories ending in a read
+		if len(ops) > 0 && (ops[len(ops)-1] >= 9 && ops[len(ops)-1] <= 11 || ops[len(ops)-1] == 14) { // histories ending in a read
 			n++
 			if n%env.NShards == env.Shard {
 				if sched.PastDeadline(env.Deadline) {
